@@ -3,9 +3,9 @@
 (* non-decreasing key order (every multigraph once, up to edge renaming - the  *)
 (* search explores every order of incident edges anyway), Start then chooses   *)
 (* the query, heuristic, restrictions, limits and cost configuration.          *)
-EXTENDS Search, Json
+EXTENDS Search, Json, IOUtils
 
-CONSTANTS NV, MaxE, Lens, Spds, Heads, HVals, Dirs, TieVals, MaxBad, Limits, Delays, Weights, Surs, CUs,
+CONSTANTS NV, MaxE, Lens, Spds, Heads, HVals, Dirs, TieVals, MaxBad, Limits, Delays, Weights, Surs, CUs, Rts,
           NoDst,      \* TRUE: also searches without a destination
           OkSubsets,  \* TRUE: every subset of forbidden edges; FALSE: all edges permitted
           NeedConsistent  \* TRUE: only heuristics that are consistent on the permitted edges
@@ -13,18 +13,21 @@ CONSTANTS NV, MaxE, Lens, Spds, Heads, HVals, Dirs, TieVals, MaxBad, Limits, Del
 Empty == [nv |-> NV, E |-> <<>>, hd |-> <<>>, src |-> 1, dst |-> 0, dir |-> "fwd",
           wd |-> 1, wt |-> 0, rd |-> 1, rt |-> 1, sur |-> <<>>, acc |-> "none",
           delay |-> [i \in 1..8 |-> 0], ok |-> <<>>, bad |-> {}, h |-> [v \in 1..NV |-> 0],
-          itl |-> -1, szl |-> -1, init |-> <<0, 0>>, ties |-> FALSE, cu |-> <<1000, 1, 1000, 1>>]
+          itl |-> -1, szl |-> -1, init |-> <<0, 0>>, ties |-> FALSE, cu |-> <<1000, 1, 1000, 1>>, rtf |-> 0, rtx |-> FALSE]
 
 (* named constant values (the cfg parser has no negative numbers / nested tuples) *)
 NoLimits == {<<-1, -1>>}
 IterLimits == {<<i, -1>> : i \in 0..4} \cup {<<-1, -1>>}
 SizeLimits == {<<-1, i>> : i \in 0..3} \cup {<<-1, -1>>}
 BothLimits == {<<i, j>> : i \in {-1, 1, 2}, j \in {-1, 0, 1}}
+FewLimits == {<<-1, -1>>, <<2, -1>>, <<-1, 1>>}
 NoDelay == {[i \in 1..8 |-> 0]}
 SomeDelay == {[i \in 1..8 |-> 0], [i \in 1..8 |-> IF i = 1 THEN 0 ELSE IF i = 8 THEN 3 ELSE 1]}
 DistOnly == {<<1, 0, 1, 1>>}
 TimeOnly == {<<0, 1, 1, 1>>}
 AllLimits == IterLimits \cup SizeLimits \cup BothLimits
+NoRt == {<<0, FALSE>>}
+SomeRt == {<<0, FALSE>>, <<1, TRUE>>, <<2, TRUE>>, <<1, FALSE>>, <<2, FALSE>>, <<3, FALSE>>}   \* <<frequency, zero budget>>
 BaseCU == {<<1000, 1, 1000, 1>>}                       \* state features in metres and seconds
 MixedCU == {<<1, 1, 50, 3>>, <<1000, 1, 5, 18>>, <<1, 1, 1000, 1>>}   \* km + minutes, m + hours, km + seconds
 Blend == {<<1, 0, 1, 1>>, <<0, 1, 1, 1>>, <<1, 1, 1, 2>>, <<2, 1, 1, 1>>}
@@ -36,7 +39,7 @@ KeyLE(a, b) == \/ a[1] < b[1]
 
 Init == /\ pc = "build" /\ scn = Empty
         /\ queue = <<>> /\ g = <<>> /\ tree = <<>> /\ cur = 0 /\ lastE = 0 /\ todo = {}
-        /\ iters = 0 /\ outcome = "run" /\ reop = FALSE
+        /\ iters = 0 /\ outcome = "run" /\ reop = FALSE /\ exh = -1
 
 AddEdge == /\ pc = "build" /\ Len(scn.E) < MaxE
            /\ \E s \in 1..NV, d \in 1..NV, len \in Lens, spd \in Spds, hdg \in Heads, su \in Surs :
@@ -45,7 +48,7 @@ AddEdge == /\ pc = "build" /\ Len(scn.E) < MaxE
                                        !.hd = Append(@, <<hdg, hdg>>),
                                        !.sur = Append(@, su),
                                        !.ok = Append(@, TRUE)]
-           /\ UNCHANGED <<queue, g, tree, cur, lastE, todo, iters, outcome, pc, reop>>
+           /\ UNCHANGED <<queue, g, tree, cur, lastE, todo, iters, outcome, pc, reop, exh>>
 
 TurnPairs(s) == {p \in (DOMAIN s.E) \X (DOMAIN s.E) : s.E[p[1]][2] = s.E[p[2]][1]}
 BadSets(s) == {b \in SUBSET TurnPairs(s) : Cardinality(b) <= MaxBad}
@@ -64,7 +67,7 @@ ConsistentH(s) ==
 
 Start == /\ pc = "build"
          /\ \E src \in 1..NV, dst \in 0..NV, dir \in Dirs, ties \in TieVals, lim \in Limits,
-               dl \in Delays, w \in Weights, cuv \in CUs :
+               dl \in Delays, w \in Weights, cuv \in CUs, rt \in Rts :
               /\ dst # src /\ (dst = 0 => NoDst)
               /\ \E hh \in [1..NV -> HVals], okv \in OkVecs(scn), bad \in BadSets(scn) :
                    /\ (dst # 0 => hh[dst] = 0) /\ (dst = 0 => \A v \in 1..NV : hh[v] = 0)
@@ -72,7 +75,7 @@ Start == /\ pc = "build"
                                            !.itl = lim[1], !.szl = lim[2], !.h = hh, !.ok = okv, !.bad = bad,
                                            !.acc = IF \A i \in 1..8 : dl[i] = 0 THEN "none" ELSE "turn",
                                            !.delay = dl,
-                                           !.wd = w[1], !.wt = w[2], !.rd = w[3], !.rt = w[4], !.cu = cuv]
+                                           !.wd = w[1], !.wt = w[2], !.rd = w[3], !.rt = w[4], !.cu = cuv, !.rtf = rt[1], !.rtx = rt[2]]
                       IN /\ (NeedConsistent => ConsistentH(s))
                          /\ Setup(s)
 
@@ -85,6 +88,19 @@ Searching == pc \in {"test", "pop", "relax"}
 SumG == LET RECURSIVE S(_) S(D) == IF D = {} THEN 0 ELSE LET v == CHOOSE v \in D : TRUE IN g[v] + S(D \ {v})
         IN S(DOMAIN g)
 
-(* scenario export for spec -> impl replay *)
-Emit == (pc = "test" /\ iters = 0 /\ DOMAIN tree = {}) => PrintT(<<"SCN", ToJson(scn)>>)
+(* scenario export for spec -> impl replay.  Every scenario of the bound is enumerated; the ones whose checksum falls  *)
+(* into the residue class chosen by the environment (STRIDE, OFFSET) are printed - a deterministic sample that the    *)
+(* seed of the check shifts.                                                                                         *)
+RECURSIVE SumTo(_, _)
+SumTo(f, n) == IF n = 0 THEN 0 ELSE f[n] + SumTo(f, n - 1)
+Checksum(s) ==
+   LET ne == Len(s.E)
+       per == [e \in 1..ne |-> (e + 1) * (s.E[e][1] * 3 + s.E[e][2] * 5 + s.E[e][3] * 7 + s.E[e][4] * 11 + s.hd[e][1]
+                                       + s.sur[e] * 13 + (IF s.ok[e] THEN 17 ELSE 0))]
+       hv == [v \in 1..s.nv |-> (v + 40) * ((s.h[v] \div 1000) + (s.h[v] % 7))]
+   IN SumTo(per, ne) + SumTo(hv, s.nv) + s.src * 19 + s.dst * 23 + (IF s.dir = "fwd" THEN 29 ELSE 0)
+      + (s.itl + 2) * 31 + (s.szl + 2) * 37 + Cardinality(s.bad) * 43 + s.wd * 47 + s.wt * 53 + s.rd * 59 + s.rt * 61
+      + s.cu[3] * 67 + s.rtf * 71 + (IF s.rtx THEN 73 ELSE 0) + s.delay[8] * 79 + (IF s.ties THEN 83 ELSE 0)
+Emit == (pc = "test" /\ iters = 0 /\ DOMAIN tree = {}) =>
+           (((Checksum(scn) % atoi(IOEnv.STRIDE)) = atoi(IOEnv.OFFSET)) => PrintT(<<"SCN", ToJson(scn)>>))
 =============================================================================
